@@ -922,7 +922,18 @@ impl CrashX {
                 decode: case["decode"].as_bool().unwrap_or(mode == "c03"),
                 occupancy: case["occupancy"].as_bool().unwrap_or(false),
             };
-            for cut in &cuts {
+            // an operation with very many file operations may be given a stride: every s-th cut
+            // (plus the last three) — reported as a goal, the evidence's `exhaustive` then refers
+            // to the thinned set
+            let stride = case["stride"].as_u64().unwrap_or(1).max(1) as usize;
+            let ncuts = cuts.len();
+            if stride > 1 {
+                out.goals.push("cuts-thinned-by-stride");
+            }
+            for (ci, cut) in cuts.iter().enumerate() {
+                if stride > 1 && ci % stride != 0 && ci + 3 < ncuts {
+                    continue;
+                }
                 let img = build_image(&pre, &tr, cut);
                 let what = format!("crash cut [{}] of op #{target}", cut.desc);
                 check_image(&ic, &img, &sides, cut.t, &what, &mut out, 0, cap, &mut capped)?;
@@ -957,6 +968,9 @@ impl CrashX {
             }
             if has(&|e| e.file == "wal" && matches!(&e.kind, vio::Kind::Write { data, .. } if data.len() > PAGE)) {
                 out.goals.push("trace:wal-multi-page");
+            }
+            if has(&|e| e.file == "wal" && matches!(&e.kind, vio::Kind::Write { data, .. } if matches!(wal_end_offset(data), Some((end, len)) if end + 1 == len))) {
+                out.goals.push("wal-end-tag-at-page-boundary");
             }
         }
         out.sig = fnv_str(&format!("{}:{}:{}", tr.events.len(), out.transitions, out.goals.len()));
@@ -1668,6 +1682,43 @@ impl CrashX {
         out.violation = it.next();
         out.more = it.collect();
         out
+    }
+}
+
+/// Independent reading of a WAL blob: the offset of its END tag and the blob's length, if the blob
+/// parses (START seqn (UPDATE page-id diff nodes… elided bucket | CLEAR bucket)* END).
+pub fn wal_end_offset(blob: &[u8]) -> Option<(usize, usize)> {
+    if blob.len() < 6 || blob[0] != 1 {
+        return None;
+    }
+    let mut pos = 5usize;
+    loop {
+        match *blob.get(pos)? {
+            2 => return Some((pos, blob.len())),
+            3 => pos += 1 + 8,
+            4 => {
+                let diff = blob.get(pos + 33..pos + 49)?;
+                let lo = u64::from_le_bytes(diff[..8].try_into().ok()?);
+                let hi = u64::from_le_bytes(diff[8..].try_into().ok()?) & !(1u64 << 63);
+                let n = (lo.count_ones() + hi.count_ones()) as usize;
+                pos += 1 + 32 + 16 + 32 * n + 8 + 8;
+            }
+            _ => return None,
+        }
+    }
+}
+
+impl CrashX {
+    /// `mc walsize <PROP>`: run a history, trace its last operation and print where the WAL's END
+    /// tag lands (exploration aid for the WAL-geometry family).
+    pub fn walsize(&mut self, prop: &str, hist: &Value, target: usize) -> Option<(usize, usize)> {
+        let (ex, _pre, _old, tr, _) = self.run_traced(prop, hist, target).ok()?;
+        let _ = ex.finish(Ok(()));
+        let blob = tr.events.iter().find_map(|e| match &e.kind {
+            vio::Kind::Write { data, .. } if e.file == "wal" => Some(data.clone()),
+            _ => None,
+        })?;
+        wal_end_offset(&blob)
     }
 }
 
